@@ -1,39 +1,45 @@
 package main
 
+// Property → rules. A rule may serve several properties; its obligations are re-evaluated
+// in each property's run (one process per property).
+
 func init() {
-	register("C01", "Decided: register tables, no-operand opcode table, condition codes (T-rules); not decided: form selection on concrete operands.",
+	register("C01", "Decided: register / no-operand / condition-code / hand-written-form tables against the SDM, prefix predicates, mode configuration of every operand object, immediate width provenance, prefix independence from immediate magnitude, emission-time mode. Not decided: that form selection picks the right form for a concrete operand combination.",
 		ruleT1, ruleT2, ruleT3, ruleT5, ruleF8size, ruleP3, ruleF1, ruleF7, ruleE5)
-	register("C06", "", ruleT7, ruleT10Expr)
-	register("C12", "", ruleT10Layout)
-	register("C07", "", ruleT11, ruleE7, ruleP2, ruleP2g, ruleP2b, ruleP2c)
-	register("C08", "", ruleT8, ruleP4)
-	register("C09", "", ruleE9, ruleSymSort, ruleF4, ruleBoundedCopy)
-	register("C10", "", ruleE1, ruleE2)
-	register("C11", "", ruleE10, ruleF3)
-	register("C13", "", ruleE6)
-	register("C14", "", ruleE5, ruleE1, ruleEmitLoop)
-	register("C15", "", ruleF5, ruleE2)
-	register("C16", "", ruleF6, ruleP5)
-	register("C17", "", ruleE5, ruleModeDefaults)
-	register("C19", "", ruleT9, ruleP6)
-}
-
-func init() {
-	register("C04", "", ruleT3, ruleBranch)
-}
-
-func init() {
-	register("C05", "", ruleP7, ruleF2, ruleN5, ruleP2b)
-}
-
-func init() {
-	register("C03", "", ruleP8, ruleS3, ruleF8size, ruleZ3, ruleP7, ruleF2, ruleN5, ruleP5)
-}
-
-func init() {
-	register("C18", "", ruleF8c, ruleF8a, ruleI1, ruleT5)
-}
-
-func init() {
-	register("C02", "", ruleT6, ruleQ2, ruleE8, ruleG2, ruleT1, ruleI1, ruleP3, ruleZ3)
+	register("C02", "Decided: ModR/M and SIB tables, special cases, displacement thresholds, SIB presence, consumption of every parsed address component, operator handling in the operand grammar, 67h predicate, agreement of the pass-1 displacement/SIB sizing. Not decided: the path-sensitive composition of the calculator's branches.",
+		ruleT6, ruleQ2, ruleE8, ruleG2, ruleT1, ruleI1, ruleP3, ruleZ3, ruleF8size)
+	register("C03", "Decided: advance-iff-emit on every handler path, constant size rules vs emitter lengths, size-model terms and prefix predicates, data-directive lockstep, label/$ = LOC, pass-2 hand-over. Not decided: equality of the two size computations on every operand value.",
+		ruleP8, ruleS3, ruleF8size, ruleZ3, ruleP7, ruleF2, ruleN5, ruleP5, ruleP3, ruleF8a)
+	register("C04", "Decided: condition codes, opcode bytes, length-adjusted displacement, range test on the narrowed value, little-endian fields, origin in the current address, mode guards. Not decided: that pass 1 leaves the target where the emitter assumes it.",
+		ruleT3, ruleBranch, ruleI1, ruleF6, ruleS3)
+	register("C05", "Decided: per-clause lockstep of size and emitted elements, lane order, decimal hand-off, RESB flow, non-emitting statements, every operand clause contributes or diagnoses, ALIGNB address basis.",
+		ruleP7, ruleF2, ruleN5, ruleP2b, ruleP8, ruleE10, ruleF6)
+	register("C06", "Decided: precedence layering of the grammar, operator table of the evaluator, literal bases. Not decided: 64-bit overflow semantics.",
+		ruleT7, ruleT10Expr)
+	register("C07", "Decided: every handler return emits, delegates or diagnoses at >= warning (level decided from colog's own table plus the CLI's AddHeader calls); Emit failures are never lost; data-directive clauses; code-generation handlers.",
+		ruleT11, ruleE7, ruleP2, ruleP2g, ruleP2b, ruleP2c)
+	register("C08", "Decided: record layouts and constants, capture-then-write ordering, symbol/aux counts, string table. Not decided: acceptance by an independent COFF reader.",
+		ruleT8, ruleP4)
+	register("C09", "Decided: same code in both formats, membership-tested symbol lists, stable name-blind ordering, inline-name threshold, bounded name copies.",
+		ruleE9, ruleSymSort, ruleF4, ruleBoundedCopy, ruleT8)
+	register("C10", "Decided: no post-init writes of package-level state, no map iteration / clock / random / environment / goroutines reachable from an assembly, truncating output, single image write. Third-party packages are trusted.",
+		ruleE1, ruleE2, ruleP6)
+	register("C11", "Decided: the EQU clause stores the evaluated body under the identifier's own text and emits nothing; handlers get evaluated operands; lookups are re-evaluated at the use site. Not decided: equivalence with textual inlining for bodies containing `$`.",
+		ruleE10, ruleF3)
+	register("C12", "Decided: layout attributes of the extracted grammar. Not decided: language equivalence under re-layout.",
+		ruleT10Layout)
+	register("C13", "Decided: explicit crash primitives reachable from the entry points; parser panic recovery. Not decided: implicit run-time panics and the complexity clause.",
+		ruleE6)
+	register("C14", "Decided: emission-time context vs traversal-time writers, no package-level writes after init, append-only ocode list, unconditional forward emission loop.",
+		ruleE5, ruleE1, ruleEmitLoop)
+	register("C15", "Decided: symbol keys are exact identifier text, tables are never iterated, symbol ordering ignores names.",
+		ruleF5, ruleE2, ruleSymSort)
+	register("C16", "Decided: the origin chain from ORG to every address computation.",
+		ruleF6, ruleP5)
+	register("C17", "Decided: default modes, BITS table, mode configuration of every operand object, emission-time mode vs traversal-time writer (known finding).",
+		ruleE5, ruleModeDefaults, ruleP3, ruleBranch)
+	register("C18", "Decided: comparator orientation/order, sign-extendable set, canonical signed-8 tests, shared table query flags, hand-written short forms. Not decided: minimality for every operand combination.",
+		ruleF8c, ruleF8a, ruleI1, ruleT5)
+	register("C19", "Decided: exit-code table, open flags, no failing exit after a successful write. Not decided: the Shift_JIS / UTF-8 decoding clause.",
+		ruleT9, ruleP6)
 }
